@@ -501,6 +501,30 @@ def run(ctx):
            what="the time-tag printer searches the '.' in a fraction formatted with %s: there is none, the search result is null and is used (crash)" % [b_["format"] for b_ in bad12])
 
 
+    # ---- R10.13
+    ctx.rule("R10.13", "RANGE-AS-READ: before the printer replaces a run by `a b ... c` it has the count confirmed by the function with which scanner and checker recover it from a, b and c (delta_from_arg_vals) - the emission of a range with a step is dominated by that comparison - since the stepwise test of the printer and the division of the readers differ for spans that overflow the value type")
+    fconv = u.function("rtosc_convert_to_range")
+    ins = [c for c in A.calls_in(u.body(fconv)) if A.callee_name(c) == "insert_arg_range"]
+    ctx.require(len(ins) == 1, "R10.13: the range emission of rtosc_convert_to_range was not found (%d)" % len(ins))
+    confirm = [c for c in A.calls_in(u.body(fconv)) if A.callee_name(c) == "delta_from_arg_vals"]
+    ok13 = False
+    det13 = {"calls_of_delta_from_arg_vals": len(confirm)}
+    for c in confirm:
+        # the call sits in a condition whose failing side leaves the function, in a statement before the emission
+        for p_ in u.ancestors(c):
+            if p_.get("kind") == "IfStmt" and _inside10(A.kids(p_)[0], c):
+                leaves = any(y.get("kind") == "ReturnStmt" for y in A.walk(A.kids(p_)[1]))
+                cmp_ = any(y.get("kind") == "BinaryOperator" and y.get("opcode") in ("!=", "==", "<", ">") for y in A.walk(A.kids(p_)[0]))
+                # it precedes the emission in the same function body
+                before = A.loc(p_)[1] is not None and A.loc(ins[0])[1] is not None and A.loc(p_)[1] < A.loc(ins[0])[1]
+                if leaves and cmp_ and before:
+                    ok13 = True
+                det13["guard"] = A.src(A.kids(p_)[0])[:160]
+                break
+    ctx.ob("R10.13", "rtosc_convert_to_range", ok13, site=A.where(ins[0]), detail=det13,
+           key="R10.13:rtosc_convert_to_range",
+           what="the printer compresses an arithmetic run without asking the readers' step computation: for a run whose span overflows the value type (int32: -2000000000 -1000000000 0 1000000000 2000000000) the printed range is rejected by the checker")
+
 def _inside10(root, node):
     nid = node.get("id")
     for x_ in A.walk(root):
